@@ -100,6 +100,16 @@ pub fn architectures() -> Vec<Value> {
 
 pub fn arch_dataset(arch: &Value, n: usize, rng: &mut Rng) -> Dataset {
     let mut d = arch_dataset_raw(arch, n, rng);
+    if let Some(f) = arch.get("input_scale").and_then(|v| v.as_f64()) {
+        for x in d.inputs.iter_mut() {
+            let v: Vec<f32> = flat(x).iter().map(|a| a * f as f32).collect();
+            *x = if usizes(&arch["input"]).len() == 1 { Tensor::single(v) } else { crate::tensors::triple_rowmajor(&usizes(&arch["input"]), &v) };
+        }
+        for t in d.targets.iter_mut() {
+            let v: Vec<f32> = flat(t).iter().map(|a| a * f as f32).collect();
+            *t = Tensor::single(v);
+        }
+    }
     if arch.get("dead_filter").is_some() {
         for x in d.inputs.iter_mut() {
             let v: Vec<f32> = flat(x).iter().map(|a| a.abs()).collect();
@@ -125,6 +135,23 @@ pub fn init_params(net: &mut Network, arch: &Value, rng: &mut Rng) {
         nets::randomize_ints(net, arch, rng, -2, 2);
     } else {
         nets::randomize_floats(net, arch, rng, 0.7);
+    }
+    // per-layer scaling of the drawn parameters (e.g. 1e-20 then 1e20: the values in between are subnormal)
+    if let Some(scales) = arch.get("layer_scales").and_then(|v| v.as_array()) {
+        for (i, sc) in scales.iter().enumerate() {
+            let f = sc.as_f64().unwrap() as f32;
+            let mut p = verif::layer_params(&net.layers[i]);
+            if let Some(w) = p.weights.as_mut() {
+                w.iter_mut().flatten().for_each(|x| *x *= f);
+            }
+            if let Some(b) = p.bias.as_mut() {
+                b.iter_mut().for_each(|x| *x *= f);
+            }
+            if let Some(k) = p.kernels.as_mut() {
+                k.iter_mut().flatten().flatten().flatten().for_each(|x| *x *= f);
+            }
+            verif::set_layer(&mut net.layers[i], p);
+        }
     }
     if arch.get("dead_filter").is_some() {
         let mut p = verif::layer_params(&net.layers[0]);
@@ -855,6 +882,20 @@ pub fn thread_jobs() -> Vec<Value> {
                           {"kind": "dense", "out": 2, "act": "linear", "bias": true}],
                "connect": [[0, 2], [2, 3], [0, 4], [1, 5]], "accumulation": {"skip": "add", "loop": "mean"},
                "objective": {"kind": "mse"}, "optimizer": {"kind": "sgdm", "lr": 0.02, "momentum": 0.7, "dampening": 0.1}}),
+        // intermediate values that are SUBNORMAL (inputs ~1e-19, first layer ~1e-20, second ~1e20): per-thread floating-point
+        // modes (flush-to-zero) must not make the result depend on which thread computed a sample
+        json!({"name": "mlp-subnormal-intermediates-sgd", "ints": false, "input": [3], "out": 2,
+               "layer_scales": [1.0e-20, 1.0e20], "input_scale": 1.0e-19,
+               "layers": [{"kind": "dense", "out": 3, "act": "linear", "bias": false},
+                          {"kind": "dense", "out": 2, "act": "linear", "bias": false}],
+               "objective": {"kind": "mse"}, "optimizer": {"kind": "sgd", "lr": 0.01}}),
+        // six filters in a convolution that is not the first layer (its input gradient sums over the filters)
+        json!({"name": "cnn-six-filters-adam", "ints": false, "input": [1, 5, 5], "out": 2,
+               "layers": [{"kind": "conv", "filters": 2, "kernel": [2, 2], "stride": [1, 1], "padding": [0, 0], "act": "tanh"},
+                          {"kind": "conv", "filters": 6, "kernel": [3, 3], "stride": [1, 1], "padding": [1, 1], "act": "tanh"},
+                          {"kind": "deconv", "filters": 5, "kernel": [2, 2], "stride": [1, 1], "padding": [0, 0], "act": "tanh"},
+                          {"kind": "dense", "out": 2, "act": "linear", "bias": true}],
+               "objective": {"kind": "mse"}, "optimizer": {"kind": "adam", "lr": 0.01}}),
         // rows of 600 elements in the first dense layer (longer than any block a parallel reduction would use)
         json!({"name": "mlp-wide-input-adam", "ints": false, "input": [600], "out": 2,
                "layers": [{"kind": "dense", "out": 4, "act": "tanh", "bias": true},
